@@ -7,7 +7,7 @@
     C  height,prevMTP,prevTime,expectedBits(hex),now
     H  version,bits(hex),time,hashNum(hex)
     B  strippedSize,totalSize,merkleOk,dupTxids,commit,cbHeight
-    S  hOk,hFail,inOk,skipPow,store   best-chain height the scenario ends with if the candidate is valid / invalid;
+    S  hOk,hFail,inOk,skipPow,store,nowAdd   best-chain height the scenario ends with if the candidate is valid / invalid;
                         whether a valid candidate ends on the active chain; the delivery skips the hash-vs-target
                         comparison; the delivery stores blocks (0 for a template check)
   answer: accept|reject[:classes] in=<candidate on the active chain> h=<best height> st=<candidate stored (HaveBlock)>
@@ -95,7 +95,7 @@ structure Scen where
 
 def pScen? (s : String) : Option Scen :=
   match s.splitOn "," with
-  | [a, b, c, d, e] => do pure ⟨← a.toInt?, ← b.toInt?, ← c.toNat?, ← pBool? d, ← pBool? e⟩
+  | [a, b, c, d, e, _nowAdd] => do pure ⟨← a.toInt?, ← b.toInt?, ← c.toNat?, ← pBool? d, ← pBool? e⟩
   | _ => none
 
 def b01 (b : Bool) : String := if b then "1" else "0"
@@ -158,7 +158,7 @@ def apiAnswer (mode : String) (d : Desc) : String :=
     else if t.ins.any (fun i => i.null || !i.avail) then "-"
     else toString (sumInt (t.ins.map (·.p2shSigops)))))
   s!"w={d.weight} cbh={cbh} wc={wc} sub={subsidy d.C.height d.P.subsidyInterval} sc={scr} p2={p2} " ++
-  s!"hv={b01 (decide (2 ≤ d.H.version))}"
+  s!"hv={b01 (decide (2 ≤ d.H.version))} val=ok"
 
 def parseDesc? : List String → Option (Desc × Scen)
   | p :: c :: h :: b :: s :: txs =>
